@@ -74,7 +74,7 @@ func main() {
 		os.Exit(2)
 	}
 	if os.Getenv("DUMPBODIES") != "" {
-		fmt.Print(dumpBodies(filepath.Join(*repo, "unmarshaler"), "Unmarshaler.unmarshal", "Unmarshaler.unmarshalCause", "Unmarshaler.resolveKind", "Unmarshaler.resolveDefinitionFromMessage", "Unmarshaler.Unmarshal"))
+		fmt.Print(dumpBodies(filepath.Join(*repo, "unmarshaler"), "Unmarshaler.unmarshal", "Unmarshaler.unmarshalCause", "Unmarshaler.resolveKind", "Unmarshaler.resolveDefinitionFromMessage", "Unmarshaler.Unmarshal", "tryConvertViaJSON", "tryConvertFieldValue"))
 		return
 	}
 	p, err := load(*repo)
